@@ -32,13 +32,14 @@ Proof.
   assert (Hcase : forall mn mx, wrapu 32 (wrapu 16 mn) = mn ->
      exists s', (do tmp__ <- rtr_check_interval_range_gen v (wrapu 32 (wrapu 16 mn)) mx;
                  let r := tmp__ in
-                 if (r =? 0) || (mode =? 1)
-                 then do s1 <- apply_interval_value_gen s v ty; Some (0, s1)
-                 else if mode =? 2
-                      then if r =? -1
-                           then do s1 <- apply_interval_value_gen s (wrapu 32 (wrapu 16 mn)) ty; Some (0, s1)
-                           else do s1 <- apply_interval_value_gen s mx ty; Some (0, s1)
-                      else Some (0, s)) = Some (0, s') /\
+                 do s2 <- (if (r =? 0) || (mode =? 1)
+                           then do s1 <- apply_interval_value_gen s v ty; Some s1
+                           else if mode =? 2
+                                then if r =? -1
+                                     then do s1 <- apply_interval_value_gen s (wrapu 32 (wrapu 16 mn)) ty; Some s1
+                                     else do s1 <- apply_interval_value_gen s mx ty; Some s1
+                                else Some s);
+                 Some (0, s2)) = Some (0, s') /\
        sget (field_of ty) s' = iv_apply mode v (sget (field_of ty) s) mn mx /\
        forall k, k <> field_of ty -> sget k s' = sget k s).
   { intros mn mx Hw. rewrite Hw, range_gen. cbn [obind]. unfold iv_apply.
@@ -50,7 +51,7 @@ Proof.
     - destruct (mode =? 2).
       + destruct (iv_range v mn mx =? -1); rewrite apply_gen by assumption; cbn [obind];
           (eexists; split; [reflexivity|]; split; [apply sget_sset_same|intros k Hk; apply sget_sset_other; congruence]).
-      + exists s. auto. }
+      + cbn [obind]. exists s. auto. }
   destruct Hty as [<-|[<-|[<-|[]]]]; unfold rtr_check_interval_option_gen;
     change (wrapu 32 0) with 0; change (wrapu 32 1) with 1; change (wrapu 32 2) with 2; cbn [Z.eqb Pos.eqb];
     [apply (Hcase c_RTR_EXPIRATION_MIN c_RTR_EXPIRATION_MAX)
